@@ -49,7 +49,81 @@ func chanOpsOf(fn *ssa.Function) []chanOp {
 //	timer          : time.Timer.C / time.After / time.Ticker.C
 //	reply          : a channel created by the requester and carried inside the request
 //	request/error  : an unbuffered field channel of a long-lived object
+// signalFields: struct fields of type chan struct{} that are closed somewhere
+// in scope and never sent on: closing broadcasts to every receiver, which is
+// what makes such a channel a cancel / completion signal whatever its name is.
+var signalFields map[*types.Var]bool
+
+func initSignalFields(p *core.Prog) {
+	if signalFields != nil {
+		return
+	}
+	signalFields = map[*types.Var]bool{}
+	closed := map[*types.Var]bool{}
+	sent := map[*types.Var]bool{}
+	fieldOfChan := func(v ssa.Value) *types.Var {
+		if u, ok := v.(*ssa.UnOp); ok && u.Op == token.MUL {
+			if fa, ok := u.X.(*ssa.FieldAddr); ok {
+				return core.FieldOfAddr(fa)
+			}
+		}
+		if f, ok := v.(*ssa.Field); ok {
+			return core.FieldOfVal(f)
+		}
+		return nil
+	}
+	for _, fn := range p.SrcFuncs() {
+		for _, b := range fn.Blocks {
+			for _, in := range b.Instrs {
+				switch x := in.(type) {
+				case ssa.CallInstruction:
+					if bi, ok := x.Common().Value.(*ssa.Builtin); ok && bi.Name() == "close" && len(x.Common().Args) == 1 {
+						if f := fieldOfChan(x.Common().Args[0]); f != nil {
+							closed[f] = true
+						}
+					}
+				case *ssa.Send:
+					if f := fieldOfChan(x.Chan); f != nil {
+						sent[f] = true
+					}
+				case *ssa.Select:
+					for _, st := range x.States {
+						if st.Dir == types.SendOnly {
+							if f := fieldOfChan(st.Chan); f != nil {
+								sent[f] = true
+							}
+						}
+					}
+				}
+			}
+		}
+	}
+	for f := range closed {
+		if sent[f] {
+			continue
+		}
+		if ch, ok := f.Type().Underlying().(*types.Chan); ok {
+			if st, ok := ch.Elem().Underlying().(*types.Struct); ok && st.NumFields() == 0 {
+				signalFields[f] = true
+			}
+		}
+	}
+}
+
 func chanRole(v ssa.Value) string {
+	if f := func() *types.Var {
+		if u, ok := v.(*ssa.UnOp); ok && u.Op == token.MUL {
+			if fa, ok := u.X.(*ssa.FieldAddr); ok {
+				return core.FieldOfAddr(fa)
+			}
+		}
+		if fv, ok := v.(*ssa.Field); ok {
+			return core.FieldOfVal(fv)
+		}
+		return nil
+	}(); f != nil && (signalFields[f] || signalFields[f.Origin()]) {
+		return "done"
+	}
 	switch x := v.(type) {
 	case *ssa.Call:
 		n := core.CalleeObjName(x)
@@ -160,6 +234,7 @@ func inChanScope(fn *ssa.Function) bool {
 }
 
 func chanOpsRule(c *Ctx, rule string) {
+	initSignalFields(c.P)
 	p, r := c.P, c.R
 	r.Rule(rule, "every channel operation is cancellable or role-exempt: a send or receive outside a select only on reply / done / timer / locally made channels; a blocking select that sends on (or only receives from) request / error channels has a cancel alternative (context, done, terminate)", 60)
 	for _, fn := range p.SrcFuncs() {
@@ -228,6 +303,7 @@ func chanOpsRule(c *Ctx, rule string) {
 // context (its first parameter), otherwise Close deadlocks against whoever
 // the callback is trying to reach.
 func onErrorCancelRule(c *Ctx, rule string) {
+	initSignalFields(c.P)
 	p, r := c.P, c.R
 	r.Rule(rule, "every function installed as asyncprocessor.Processor.OnError either never blocks or selects on the Done() of the context it is given (the queue's own context, cancelled by Processor.Close before it joins the consumer)", 2)
 	f := p.Field("internal/asyncprocessor", "Processor", "OnError")
@@ -286,6 +362,7 @@ func onErrorCancelRule(c *Ctx, rule string) {
 // reply channel, every path to the next select (or to a return) sends on that
 // channel, and never twice.
 func replyPairingRule(c *Ctx, rule string, floor int, loops []string, exempt map[string]string) {
+	initSignalFields(c.P)
 	p, r := c.P, c.R
 	r.Rule(rule, "in every run loop, each request received with a reply channel is answered exactly once on every path before the loop waits again or returns", floor)
 	for _, name := range loops {
@@ -411,6 +488,7 @@ var goTable = map[string]goRow{
 }
 
 func goTableRule(c *Ctx, rule string) {
+	initSignalFields(c.P)
 	p, r := c.P, c.R
 	r.Rule(rule, "every `go` statement has a row: the spawned function signals completion first thing (defer close(done) / defer wg.Done() with wg.Add before the go), and the named owner function waits for that signal", 14)
 	seen := map[string]bool{}
@@ -589,6 +667,7 @@ func init() {
 
 // c13CallbackOrder: close notifications come after the joins.
 func c13CallbackOrder(c *Ctx) {
+	initSignalFields(c.P)
 	p, r := c.P, c.R
 	r.Rule("C13/CALLBACK-ORDER", "OnSessionClose is delivered only after every attached connection goroutine has ended (<-sc.done), and OnConnClose only after the reader goroutine has ended (reader.wait())", 2)
 	ssRun := p.Func("", "ServerSession.run")
@@ -777,6 +856,7 @@ func triggerBeforeWaitRule(c *Ctx, rule string) {
 
 // clientCloseRule: after doClose no socket of the client remains.
 func clientCloseRule(c *Ctx, rule string) {
+	initSignalFields(c.P)
 	p, r := c.P, c.R
 	r.Rule(rule, "Client.doClose leaves no control socket behind: every path to its return either calls nconn.Close() or has seen nconn == nil; every set-up media is closed; Client.run calls doClose after its loop", 3)
 	fn := p.Func("", "Client.doClose")
